@@ -42,6 +42,7 @@ def dispatch (line : String) : String :=
   | "tr" :: args => runTR args
   | "tw" :: args => runTW args
   | "cv" :: args => runCV args
+  | "so" :: args => runSO args
   | _ => "bad-component"
 
 partial def loop (h : IO.FS.Stream) (out : IO.FS.Stream) : IO Unit := do
